@@ -208,7 +208,7 @@ def tolerant_compare(tag, x0, x1, stats, net):
     for cl in net["clusters"]:
         if cl["k"] == "obs":
             for o in cl["obs"]:
-                if o["t"] == "z-angle" and (o.get("from_dh") or o.get("to_dh")):
+                if o["t"] == "z-angle" and (o.get("from_dh") or o.get("to_dh") or cl.get("from_dh")):
                     tolc = max(tolc, 2.0 * 1.571e-7 * nm.hdist(P[cl["from"]], P[o["to"]]))
     return c13.compare_results(tag, x0, x1, stats, tolc)
 
